@@ -173,8 +173,11 @@ yield_next(void)
 		// nobody enabled: advance virtual time to next deadline
 		nni_time best = NNI_TIME_NEVER;
 		for (int i = 0; i < nT; i++) {
-			if (((T[i].state == S_CV) && T[i].timed) ||
-			    (T[i].state == S_SLEEP)) {
+			if ((T[i].state == S_CV) && T[i].timed) {
+				if (T[i].deadline < best) {
+					best = T[i].deadline;
+				}
+			} else if (T[i].state == S_SLEEP) {
 				if (T[i].deadline < best) {
 					best = T[i].deadline;
 				}
@@ -408,9 +411,26 @@ nni_plat_ncpu(void)
 {
 	return (2);
 }
+// The aio expiry thread wakes when `now >= next` but expires an aio only when
+// `deadline < now`: with the clock standing exactly on a deadline it re-scans in a loop
+// until the clock ticks.  Real time ticks on; virtual time cannot, so a thread that reads
+// the clock more than 100 times without any scheduling step in between is shown the next
+// millisecond.  Net effect: a timer with deadline D fires at the first quiescent point
+// with now >= D.
+static unsigned long clock_last_step;
+static int           clock_reads;
+static unsigned long clock_spins;
 nni_time
 nni_clock(void)
 {
+	if (steps != clock_last_step) {
+		clock_last_step = steps;
+		clock_reads     = 0;
+	}
+	if (++clock_reads > 100) {
+		clock_spins++;
+		return (vnow + 1);
+	}
 	return (vnow);
 }
 void
